@@ -61,6 +61,11 @@ def run(ctx):
     c17.open_rules(dep(ctx, "C05", "C17"))
     if fm is not None:
         c14.size_rule(dep(ctx, "C05", "C14"), fm)       # rows sit at header + n * row width: the width is the row's
+    from . import c03
+    c03.header_line_rule(dep(ctx, "C05", "C03"))          # both writers emit the same header bytes
+    for fw_, who_ in ((fm, "oligo::vectorise_mmap"), (fb, "oligo::vectorise_batch")):
+        if fw_ is not None:
+            rule_output_always_created(dep(ctx, "C05", "C17"), "C17.W", fw_, who_)      # ... also for an input without records
     # identical bytes for every thread count incl. the CLI default: at least one worker is always spawned
     fcli = ctx.view(c15.CLI, c15.UNIT)
     if fcli is not None:
